@@ -40,6 +40,15 @@ Theorem C10_out_of_range_refused : forall s l i d,
      vstep s (VPopAt i) = Ok (s, VORefused (vrefuse_acc l)) /\ vstep s (VRemoveAt i) = Ok (s, VORefused (vrefuse_acc l))).
 Proof. exact out_of_range_refused. Qed.
 
+(* the new element may be one of the vector's own: addat(v, i, getat(v, j, false)) - the pointer is into the block that the call
+   reallocates and shifts.  The code as repaired (vaddself: own index remembered, adjusted by the shift, element copied from where
+   the shift left it) inserts a copy of what position j held, never crashes (no read of the old block, no overlapping memcpy), and
+   does nothing when j names no element or i is out of range. *)
+Theorem C10_addself : forall s l i j,
+  vinv s -> vrep s l -> (Z.of_nat (vnum s) < 2 ^ 31)%Z -> vint i -> vint j ->
+  exists s', vaddself s i j = Ok (s', vobs_map VByte (snd (vs_addself l i j))) /\ vinv s' /\ vrep s' (fst (vs_addself l i j)) /\ vobjsize s' = vobjsize s.
+Proof. exact addself_refines. Qed.
+
 (* explicit resize to any capacity n (including 0): succeeds, num = min num n, max = n, objsize unchanged, surviving elements unchanged.
    (Automatic growth inside add is covered by C10_refines: the specification list does not depend on the capacity.) *)
 Theorem C10_resize_preserves : forall s l n, vinv s -> vrep s l ->
@@ -86,6 +95,7 @@ Example C10_ex_run : forall s0, vnew 1 2 4 = Some s0 ->
 Proof. intros s0 H. vm_compute in H. injection H as <-. vm_compute. auto. Qed.
 
 Print Assumptions C10_refines.
+Print Assumptions C10_addself.
 Print Assumptions C10_step_refines.
 Print Assumptions C10_no_undef.
 Print Assumptions C10_refused_no_effect.
@@ -94,3 +104,13 @@ Print Assumptions C10_resize_preserves.
 Print Assumptions C10_usable_after_resize0.
 Print Assumptions C10_pinned_remove_at_overlap.
 Print Assumptions C10_pinned_resize0_unusable.
+
+(* addself on a concrete full vector of capacity 2 (the block is reallocated), front and back relative, and refused *)
+Definition addself_view (r : res (vec * vobs cell)) : option (list cell) * nat * vobs cell :=
+  match r with Ok (s', o) => (vdata s', vnum s', o) | _ => (None, 0, VOUnit) end.
+Example C10_addself_example :
+  let s := mkVec (Some [VByte 1; VByte 2]%N) 2 2 1 0 VExact in
+  addself_view (vaddself s 0 (-1)) = (Some [VByte 2; VByte 1; VByte 2]%N, 3, VOBool true) /\
+  addself_view (vaddself s (-1) 0) = (Some [VByte 1; VByte 1; VByte 2]%N, 3, VOBool true) /\
+  addself_view (vaddself s 0 5) = (vdata s, 2, VORefused VERANGE).
+Proof. vm_compute. auto. Qed.
